@@ -37,8 +37,14 @@ def cf1d(ny, nx, *, lat=None, lon=None, ydim='y', xdim='x', lat_name='lat', lon_
     return _assemble(variables, coords, data_vars, dict(attrs or {'Conventions': 'CF-1.8'}))
 
 
+DATA_FIRST = False     # set by a harness to list the data variables before the geometry variables
+
+
 def _assemble(variables, coords, data_vars, attrs):
-    """Geometry variables first (as in files written by the models), then data."""
+    """Geometry variables first (as in files written by the models), then data - unless DATA_FIRST."""
+    if DATA_FIRST and data_vars:
+        dv = {k: (v if isinstance(v, xarray.DataArray) else xarray.Variable(*v)) for k, v in data_vars.items()}
+        return xarray.Dataset(data_vars={**dv, **{k: xarray.Variable(*v) for k, v in variables.items()}}, coords=coords, attrs=attrs)
     ds = xarray.Dataset(data_vars=variables, coords=coords, attrs=attrs)
     if data_vars:
         ds = ds.assign({k: (v if isinstance(v, xarray.DataArray) else xarray.Variable(*v)) for k, v in data_vars.items()})
